@@ -1,0 +1,9 @@
+//go:build !verif
+// +build !verif
+
+// Package verifhook provides named failpoints for the verification harness.
+// Without the "verif" build tag every call compiles to nothing.
+package verifhook
+
+// Point marks a place where the verification harness may interrupt execution.
+func Point(name string) {}
